@@ -48,6 +48,8 @@ func Run(cfg *Config, plan Plan) *Result {
 	}
 	sim := simrt.New(cfg.Seed)
 	sim.Policy.StickyPermille = cfg.StickyPm
+	sim.Policy.SpawnDelayPermille = cfg.SpawnDelayPm
+	sim.Policy.SpawnDelayMaxNs = int64(cfg.SpawnDelayUs) * 1000
 	if cfg.MaxSteps > 0 {
 		sim.MaxSteps = cfg.MaxSteps
 	}
